@@ -855,7 +855,58 @@ pub fn generate(check: &str, tier: &str, seed: u64) -> Scenario {
                     if r.one_in(3) {
                         steps.push(CStep::Pause(r.range(1, 2000)));
                     }
-                    let first = hostile_item(&mut r, thorough);
+                    let mut first = hostile_item(&mut r, thorough);
+                    if r.one_in(3) {
+                        // a malformed command that names one of this connection's own keys, right
+                        // after a well-formed SET of that key: it must leave the key alone
+                        let k = *r.pick(&own);
+                        tag += 1;
+                        steps.push(CStep::Send(Req::Set(k, Val { tag, len: 12 })));
+                        steps.push(CStep::Await(0));
+                        let key = keys[k].as_bytes();
+                        let bulk = |b: &[u8]| -> Vec<u8> {
+                            let mut o = format!("${}\r\n", b.len()).into_bytes();
+                            o.extend_from_slice(b);
+                            o.extend_from_slice(b"\r\n");
+                            o
+                        };
+                        let mut item: Vec<u8> = Vec::new();
+                        match r.below(6) {
+                            0 => {
+                                item.extend_from_slice(b"*3\r\n$3\r\nDEL\r\n");
+                                item.extend(bulk(key));
+                                item.extend_from_slice(b"$2\r\n\xff\xfe\r\n");
+                            }
+                            1 => {
+                                item.extend_from_slice(b"*3\r\n$3\r\nDEL\r\n");
+                                item.extend(bulk(key));
+                                item.extend_from_slice(b":7\r\n");
+                            }
+                            2 => {
+                                item.extend_from_slice(b"*4\r\n$3\r\nSET\r\n");
+                                item.extend(bulk(key));
+                                item.extend(bulk(b"other"));
+                                item.extend(bulk(b"extra"));
+                            }
+                            3 => {
+                                item.extend_from_slice(b"*3\r\n$3\r\nSET\r\n");
+                                item.extend(bulk(key));
+                                item.extend_from_slice(b":5\r\n");
+                            }
+                            4 => {
+                                item.extend_from_slice(b"*4\r\n$3\r\nDEL\r\n");
+                                item.extend(bulk(key));
+                                item.extend_from_slice(b"$-1\r\n");
+                                item.extend(bulk(key));
+                            }
+                            _ => {
+                                item.extend_from_slice(b"*3\r\n$3\r\nDEL\r\n");
+                                item.extend(bulk(key));
+                                item.extend_from_slice(b"+simple\r\n");
+                            }
+                        }
+                        first = item;
+                    }
                     // a truncated frame could be completed into a valid command by whatever
                     // follows it, so more garbage only follows items that are complete
                     let huge = |b: &[u8]| b.windows(12).any(|w| w.iter().all(|c| c.is_ascii_digit()));
@@ -922,6 +973,16 @@ pub fn generate(check: &str, tier: &str, seed: u64) -> Scenario {
             let mut clients = Vec::new();
             for _ in 0..nclients {
                 let mut steps = Vec::new();
+                // some clients give up before they were ever served (possibly while still
+                // queued behind the limit): reset or close right after connecting
+                if r.one_in(6) {
+                    if r.one_in(2) {
+                        steps.push(CStep::Pause(r.range(1, 20_000)));
+                    }
+                    steps.push(if r.one_in(3) { CStep::Close } else { CStep::Reset });
+                    clients.push(ClientScript { start_us: r.range(0, 30_000), chunk_mode: 0, chunk_n: 16, chunk_pause_us: 0, hostile: false, steps });
+                    continue;
+                }
                 // a first exchange (the connection is then definitely being served)
                 let first = r.one_in(8);
                 if !first {
